@@ -945,6 +945,24 @@ def check_dtype_history(np, cfgd, utts):
 
     bad, nt, seen = [], False, []
     for k, u in enumerate(utts):
+        if (u["seed"] + k) % 3 == 0:
+            # a non-floating signal in between (raw int16 PCM handed over by mistake): it is refused with ValueError and
+            # must leave the computer idle and usable
+            xi = (np.arange(max(1, u["N"])) % 7 - 3).astype(np.int16)
+            try:
+                comp.compute_full(xi) if u["parts"] is None else comp.compute_chunk(xi)
+                bad.append("an int16 signal is accepted (utterance #%d of the history)" % (k + 1))
+                break
+            except ValueError:
+                pass
+            except Exception as e:  # noqa
+                bad.append("an int16 signal raises %s instead of ValueError" % type(e).__name__)
+                break
+            if comp.started:
+                bad.append("after an int16 signal was refused the computer reports started=True "
+                           "(history so far: %s)" % (", ".join(seen) if seen else "nothing"))
+                break
+            seen.append("int16 (refused)")
         dt = np.dtype(getattr(np, u["dtype"]))
         x = history_signal(np, u["dtype"], u["N"], u["seed"])
         how = "compute_full" if u["parts"] is None else "%d chunks + finalize" % len(u["parts"])
